@@ -9,15 +9,17 @@ src=/tmp/seed/$id/seed_out
 wt=/tmp/conf_$id$n
 git -C /repo worktree remove --force $wt 2>/dev/null
 git -C /repo worktree add -q --detach $wt HEAD || exit 2
+dest=${DEST:-cmd}
+if [ "$dest" = own ]; then dest=seeddemo$n; mkdir -p $wt/$dest; fi
 for f in $src/demo$n/*_test.go $src/demo$n/*_test.go.txt; do
   [ -f "$f" ] || continue
-  b=$(basename "$f" .txt); cp "$f" $wt/cmd/$b
+  b=$(basename "$f" .txt); cp "$f" $wt/$dest/$b
 done
-cp $src/demo$n/*.grits $wt/cmd/ 2>/dev/null
-clean=$(cd $wt && go test -vet=off -count=1 $extra -run "$re" ./cmd/ 2>&1 | tail -1)
+cp $src/demo$n/*.grits $wt/$dest/ 2>/dev/null
+clean=$(cd $wt && go test -vet=off -count=1 $extra -run "$re" ./$dest/ 2>&1 | tail -1)
 if ! git -C $wt apply $src/patch$n.diff 2>/tmp/apply_err; then echo "$id$n: PATCH DOES NOT APPLY TO HEAD: $(head -2 /tmp/apply_err)"; git -C /repo worktree remove --force $wt; exit 3; fi
 build=$(cd $wt && go build ./... 2>&1 && go build -tags verif ./... 2>&1 | tail -2)
-suite=$(cd $wt && go test -vet=off -count=1 -skip 'TestSeed|TestSimpleDUP$|TestSimpleMultipleProvidersInitially' ./... 2>&1 | grep -E "^(FAIL|---|panic)" | head -5 | tr '\n' ' ')
-seeded=$(cd $wt && go test -vet=off -count=1 $extra -run "$re" ./cmd/ 2>&1 | tail -1)
+suite=$(cd $wt && go test -vet=off -count=1 -skip 'TestSeed|TestSimpleDUP$|TestSimpleMultipleProvidersInitially' ./cmd ./parser ./process ./types 2>&1 | grep -E "^(FAIL|---|panic)" | head -5 | tr '\n' ' ')
+seeded=$(cd $wt && go test -vet=off -count=1 $extra -run "$re" ./$dest/ 2>&1 | tail -1)
 echo "$id$n: clean=[$clean] build=[${build:-ok}] suite_failures=[${suite:-none}] seeded=[$seeded]"
 git -C /repo worktree remove --force $wt
